@@ -132,7 +132,7 @@ Lemma scan_hex_tail w x : stop_tail w -> forall acc, scan_hex (x ++ w) acc = sca
 Proof.
   intros Hw. induction x as [|c t IH]; intros acc.
   - cbn [app]. pose proof (tail_not_hex w Hw) as H. destruct w as [|s z]; [reflexivity|]. rewrite scan_hex_cons.
-    change (getz (s :: z) 0) with s in H. rewrite H. reflexivity.
+    change (getz (s :: z) 0) with s in H. rewrite H, andb_false_r. reflexivity.
   - cbn [app]. rewrite !scan_hex_cons. rewrite IH. reflexivity.
 Qed.
 Lemma scan_dec_tail w x : stop_tail w -> forall acc, scan_dec (x ++ w) acc = scan_dec x acc.
@@ -154,7 +154,7 @@ Lemma scan_hex_le l : forall acc n v, scan_hex l acc = (n, v) -> n <= len l.
 Proof.
   induction l as [|c t IH]; intros acc n v H; [cbn [scan_hex] in H|rewrite scan_hex_cons in H].
   - apply pair_equal_spec in H. destruct H as [<- _]. change (len (@nil Z)) with 0. lia.
-  - rewrite len_cons. pose proof (len_nonneg t). destruct (is_hex c).
+  - rewrite len_cons. pose proof (len_nonneg t). destruct ((acc <? 65536) && is_hex c).
     + destruct (scan_hex t _) as [n1 v1] eqn:E1. apply pair_equal_spec in H. destruct H as [<- _].
       apply IH in E1. lia.
     + apply pair_equal_spec in H. destruct H as [<- _]. lia.
